@@ -104,6 +104,21 @@ func init() {
 		"reader step: induction over Reads from the iterator invariant; buffer lengths above 8 are outside the bound",
 		"composition with the real handler runs (every data Set the backend sees has the full chunk length) is asserted by the C04 handler harness",
 	}, stdAssumptions...), Quick: c16q, Thorough: c16t})
+
+	reg(Check{ID: "C11", Level: "model_checking", Assumptions: append([]string{
+		"binary: the 24 header bytes are fully symbolic (magic fixed to 0x80 in quick, symbolic in thorough); consistent frames declare at most 23 body bytes (so no second header fits in the stream), contradictory frames (total < key+extras) are all covered; the client sends min(total,23) arbitrary body bytes and then waits",
+		"allocation judged on the engine's allocation log: every make() between the start and the end of the connection loop, symbolic sizes asserted against 128 + (total - extras if consistent else 0) before they are concretised",
+		"text: one command line of n arbitrary ASCII bytes + CRLF, then EOF (bytes >= 0x80 in command lines are outside the bound: the interpreted strings.TrimSpace would need the unicode tables)",
+		"termination = the loop returns within the step budget with the connection closed exactly once; a read issued while the client waits is reported, not blocked on",
+	}, stdAssumptions...),
+		Quick: []Job{
+			{Pkg: "./zz_verif/wire", Func: "ZZBinaryHeader", Reach: []string{"loop-returned", "contradictory-frame"}, Bounds: "all 2^8 opcodes x 2^16 key lengths x 2^8 extras lengths x 2^32 total lengths x opaque/cas/vbucket, body <= 23 bytes"},
+			{Pkg: "./zz_verif/wire", Func: "ZZTextLine", Params: map[string]int64{"len": 6}, Reach: []string{"loop-returned"}, Bounds: "every 6-byte ASCII command line"},
+		},
+		Thorough: []Job{
+			{Pkg: "./zz_verif/wire", Func: "ZZBinaryHeader", Name: "ZZBinaryHeader-anymagic", Params: map[string]int64{"anymagic": 1}, Reach: []string{"loop-returned"}, Bounds: "as quick, first byte symbolic too"},
+			{Pkg: "./zz_verif/wire", Func: "ZZTextLine", Name: "ZZTextLine-9", Params: map[string]int64{"len": 9}, Reach: []string{"loop-returned"}, Bounds: "every 9-byte ASCII command line"},
+		}})
 }
 
 func itoa(n int64) string { return strconv.FormatInt(n, 10) }
